@@ -24,7 +24,8 @@ type impItem struct {
 	K   string `json:"k"` // decl | spread | under
 	D   int    `json:"d"`
 	F   int    `json:"f"`   // 1-based file index
-	Key string `json:"key"` // under: the key
+	Key string `json:"key"` // under / key: the key
+	Sel string `json:"sel"` // key: the imported file's key (key: @f.sel)
 	Map int    `json:"map"` // under: 1 = written  key: {...@f}  instead of  key: @f
 	Sty int    `json:"sty"`
 }
@@ -64,7 +65,7 @@ func genImports(seed int64, plain []int) importsInput {
 			if r.Intn(2) == 0 {
 				key := []string{"x", "y", "z"}[r.Intn(3)]
 				for _, o := range f.Items {
-					if o.K == "under" && o.Key == key {
+					if (o.K == "under" || o.K == "key") && o.Key == key {
 						key = "" // a key takes one import
 					}
 				}
@@ -72,6 +73,9 @@ func genImports(seed int64, plain []int) importsInput {
 					continue
 				}
 				it = impItem{K: "under", F: t, Key: key, Map: r.Intn(2)}
+				if r.Intn(3) == 0 {
+					it.K, it.Sel, it.Map = "key", []string{"a", "b", "A"}[r.Intn(3)], 0 // (a spread of a key that has no map is an error of its own)
+				}
 			}
 			pos := r.Intn(len(f.Items) + 1)
 			f.Items = append(f.Items[:pos], append([]impItem{it}, f.Items[pos:]...)...)
@@ -116,6 +120,18 @@ func (in importsInput) fileText(al *irAlphabet, i int) string {
 			sb.WriteString(al.Decls[it.D-1].render(it.Sty) + "\n")
 		case "spread":
 			fmt.Fprintf(&sb, "...@%s\n", importSpelling(f.Path, in.Files[it.F-1].Path, k))
+		case "key":
+			sp := importSpelling(f.Path, in.Files[it.F-1].Path, k)
+			if strings.HasPrefix(sp, "\"") {
+				sp = sp + "." + it.Sel
+			} else {
+				sp = sp + "." + it.Sel
+			}
+			if it.Map == 1 {
+				fmt.Fprintf(&sb, "%s: {\n  ...@%s\n}\n", it.Key, sp)
+			} else {
+				fmt.Fprintf(&sb, "%s: @%s\n", it.Key, sp)
+			}
 		case "under":
 			if it.Map == 1 {
 				fmt.Fprintf(&sb, "%s: {\n  ...@%s\n}\n", it.Key, importSpelling(f.Path, in.Files[it.F-1].Path, k))
@@ -141,6 +157,8 @@ func (in importsInput) inlined(al *irAlphabet, i int, ind string, stack []int, s
 			for _, l := range strings.Split(al.Decls[it.D-1].render(it.Sty), "\n") {
 				fmt.Fprintf(sb, "%s%s\n", ind, l)
 			}
+		case "key":
+			return false // no textual twin for the import of a single key
 		case "spread":
 			if !in.inlined(al, it.F, ind, stack, sb) {
 				return false
@@ -205,7 +223,7 @@ func driveImports(c *Ctx) error {
 		for _, f := range in.Files {
 			items := []tr.M{}
 			for _, it := range f.Items {
-				items = append(items, tr.M{"k": it.K, "d": it.D, "f": it.F, "key": it.Key})
+				items = append(items, tr.M{"k": it.K, "d": it.D, "f": it.F, "key": it.Key, "sel": it.Sel})
 				if it.K != "decl" {
 					nImports++
 				}
@@ -225,7 +243,7 @@ func driveImports(c *Ctx) error {
 			for _, it := range in.Files[i-1].Items {
 				if it.K != "decl" {
 					p2 := pfx
-					if it.K == "under" {
+					if it.K == "under" || it.K == "key" {
 						p2 = pfx + it.Key + "."
 					}
 					walkX(it.F, p2, depth+1, append(append([]int{}, stack...), i))
@@ -257,16 +275,19 @@ func driveImports(c *Ctx) error {
 				}
 			}
 		}
-		hasEref := 0
+		hasEref, hasKeyImport := 0, 0
 		for _, f := range in.Files {
 			for _, it := range f.Items {
+				if it.K == "key" {
+					hasKeyImport = 1
+				}
 				if it.K == "decl" && al.Decls[it.D-1].K == "eref" {
 					hasEref = 1
 				}
 			}
 		}
-		ev := tr.M{"ev": "set", "nullImported": nullImported, "importedTwice": shared, "erefImported": erefImported, "hasEref": hasEref, "files": files, "text": firstN(all.String(), 900), "err": 0, "errIsCycle": 0, "panic": 0, "hang": 0, "msg": "", "obs": tr.M{"objs": []tr.M{}, "edges": []tr.M{}},
-			"twinErr": 0, "twinSame": 0, "twinText": ""}
+		ev := tr.M{"ev": "set", "nullImported": nullImported, "importedTwice": shared, "erefImported": erefImported, "hasEref": hasEref, "hasKeyImport": hasKeyImport, "files": files, "text": firstN(all.String(), 900), "err": 0, "errIsCycle": 0, "panic": 0, "hang": 0, "msg": "", "obs": tr.M{"objs": []tr.M{}, "edges": []tr.M{}},
+			"twinErr": 0, "twinSame": 0, "twinText": "", "noTwin": 0}
 		type res struct {
 			obs   tr.M
 			dig   string
@@ -318,6 +339,8 @@ func driveImports(c *Ctx) error {
 				} else {
 					ev["twinSame"] = tr.B(sameSet(r1.dig, r2.dig))
 				}
+			} else {
+				ev["noTwin"] = 1
 			}
 		}
 		nt := []string{}
